@@ -75,7 +75,14 @@ fn random_mat3(rng: &mut Rng) -> Matrix3<f32> {
     let shear = if rng.chance(0.3) { rng.uniform(-0.5, 0.5) as f32 } else { 0.0 };
     let tx = rng.uniform(-0.5, 0.5) as f32;
     let ty = rng.uniform(-0.5, 0.5) as f32;
-    Matrix3::new(c * sx, -s * sy + shear, tx, s * sx, c * sy, ty, 0.0, 0.0, 1.0)
+    // bottom row: usually (0,0,1); sometimes a homogeneous scale w != 1 or a
+    // mildly projective row
+    let (p0, p1, w) = match rng.below(6) {
+        0 => (0.0, 0.0, *rng.pick(&[0.5f32, 0.75, 2.0])),
+        1 => (rng.uniform(-0.05, 0.05) as f32, rng.uniform(-0.05, 0.05) as f32, rng.uniform(0.8, 1.2) as f32),
+        _ => (0.0, 0.0, 1.0),
+    };
+    Matrix3::new(c * sx, -s * sy + shear, tx, s * sx, c * sy, ty, p0, p1, w)
 }
 
 fn check_scene(sc: &Scene, su: &Setup, rng: &mut Rng, st: &mut Stats) -> Option<(String, String, Value)> {
@@ -221,11 +228,22 @@ impl Prop for C06 {
         } else if kind < 18 || n_models == 0 {
             // random expression (no rand/mix: their value hashes NaN payloads)
             let mut cfg = GenCfg::random(rng, 40);
+            if rng.chance(0.35) {
+                // many values kept live across mod / libm calls (register
+                // save/restore paths of the JIT interval evaluator)
+                cfg = GenCfg::new(40 + rng.below(50));
+                cfg.topo = prog::Topo::Crossing;
+                cfg.profile = prog::Profile::Libm;
+                cfg.const_p = 0.2;
+            }
             cfg.consts = Consts::Tame;
             cfg.n_vars = 3;
             cfg.n_outputs = 1;
             cfg.allow_un.retain(|o| *o != Un::Rand);
-            cfg.allow_bin.retain(|o| *o != Bin::Mix);
+            // atan2 with both arguments zero is excluded from the enclosure
+            // claim the renderer's fills rest on (C03), and x.mod(x)-style
+            // sub-terms reach it easily
+            cfg.allow_bin.retain(|o| *o != Bin::Mix && *o != Bin::Atan2);
             st.inc("scenes_random_expression");
             (prog::generate(rng, &cfg), None)
         } else {
@@ -271,7 +289,7 @@ impl Prop for C06 {
         }
     }
     fn rule(&self) -> String {
-        "each case = one scene (CSG of primitives under transforms incl. free variables, a random expression without rand/mix, or a bundled model) rendered once with random image size 1..96 (non-square, not tile multiples), a random valid tile-size list over {4..128}, random affine world_to_model, z slice, pixel_perfect on/off, VM or JIT, no pool or a pool of 1..16 threads; up to 700 pixels per image compared with Context::eval at the documented sample position (inside <=> value < 0 outside the zero band 1e-5*max(1,|p|); value equality in pixel-perfect mode); distinct = scene hash".into()
+        "each case = one scene (CSG of primitives under transforms incl. free variables, a random expression without rand/mix/atan2, or a bundled model) rendered once with random image size 1..96 (non-square, not tile multiples), a random valid tile-size list over {4..128}, random affine world_to_model, z slice, pixel_perfect on/off, VM or JIT, no pool or a pool of 1..16 threads; up to 700 pixels per image compared with Context::eval at the documented sample position (inside <=> value < 0 outside the zero band 1e-5*max(1,|p|); value equality in pixel-perfect mode); distinct = scene hash".into()
     }
     fn assumptions(&self) -> Vec<String> {
         vec!["RenderConfig::mat() defines the pixel sample position (screen -> model), as documented".into(),
